@@ -135,7 +135,8 @@ pub fn run(tr: &mut Tr, seed: u64, rpaths: &str, wpaths: &str, full: bool, shard
                         if !src.dead {
                             continuation(tr, &mut src, true);
                         }
-                        if !src.dead && src.unary_safe() {
+                        // a gamma code on arbitrary data is in the code's domain only if its unary part is short
+                        if !src.dead && src.unary_safe() && src.zeros_ahead(40).map(|z| z < 30).unwrap_or(false) {
                             let c = CodeSpec::simple(Fam::Gamma);
                             let opt = if cfg.peek_max() >= 9 { 1 } else { 0 };
                             src.read_code(tr, &c, opt);
